@@ -12,6 +12,18 @@ from ..rungrid_world import Geometry, GROUP_TLA
 from .. import rungrid_scripts as RS
 from .. import rungrid_trace as RT
 
+PROPS = {
+    "C10": dict(level='model_checking', technique='TLC exhaustive on RunGrid.tla + TLC trace validation of real run() executions (hook events) + replay of TLC simulate behaviours',
+               text='TLC explores every refinement choice, storage mode, symmetry setting and iteration order inside small constants and checks IntegralConsistent / WeightOne / SavedWeightOne on every state; the same invariants are evaluated by TLC on every state of traces recorded from the real run() (scenarios derived from TLC behaviours and seeded random ones), with the projected K-list, weights, running-integral coefficients and files compared with the specification after every event.',
+               note='trusts: the one-hot abstraction of per-K results, the projection functions in harness/rungrid_world.py, TLC; bounded to the listed geometries', ref='DESIGN.md 3.1'),
+    "C11": dict(level='model_checking', technique='TLC exhaustive A/B product (uninterrupted vs stopped+restarted run) on RunGrid.tla + trace validation of real stop/restart executions with permuted directory listings',
+               text='RestartEquivalence is checked by TLC over all stopping points, splits, storage modes and listing permutations inside the constants; real run() calls are stopped and restarted along TLC-generated and random scenarios with a listing-order shim, and TLC validates the recorded traces including equality of every saved/returned result with the uninterrupted reference.',
+               note='trusts: same as C10 plus the glob shim (only permutes the real listing)', ref='DESIGN.md 3.1'),
+    "C12": dict(level='model_checking', technique='TLC exhaustive over completion orders and ray.wait answers on RunGrid.tla + trace validation of the real process() under a schedule-controlled ray double + numeric serial-vs-parallel comparison with real calculators',
+               text='CollectedOnce / AllCollected / IntegralConsistent are checked by TLC for every interleaving of completions and every contract-conforming ray.wait answer; the unmodified process() is driven through those schedules and its traces validated; grid and path tabulations are compared serial vs parallel (path order).',
+               note='trusts: the ray double follows the documented ray.wait contract (one real-ray smoke run in the thorough tier)', ref='DESIGN.md 3.1'),
+}
+
 INVS_ALL = ["TypeOK", "NoError", "WeightOne", "NoEquivDup", "OrbitWeight", "Tiling", "IntegralConsistent",
             "SavedWeightOne", "ReturnedWeightOne", "CollectedOnce", "AllCollected", "RestartEquivalence"]
 
